@@ -350,7 +350,65 @@ fn classify(d: &Ds, spec: &[String], got: &[String], script: &[Step]) -> &'stati
     ""
 }
 
-fn run_ds(case: &str, d: &Ds, scratch: &Path, rep: &mut Report) {
+/// `Some(true)`: `lineSafeCheck` holds on every line-aligned window; `Some(false)`: it fails on one
+/// (findings F1/F2/F24 live there); `None`: not checked (slow-path matcher, passthru, long input).
+fn certify_line_safe(case: &str, d: &Ds, m: &RegexMatcher, inp: &[u8], drv: &mut Driver, rep: &mut Report) -> Option<bool> {
+    if !d.fast || d.passthru || inp.len() > 400 {
+        return None;
+    }
+    let lt = match d.lt {
+        Lt::Lf => searcher_common::Lt::Lf,
+        Lt::Crlf => searcher_common::Lt::Crlf,
+        Lt::Nul => searcher_common::Lt::Nul,
+    };
+    let cfg = searcher_common::Cfg {
+        lt,
+        inv: d.invert,
+        a: d.after,
+        b: d.before,
+        pt: d.passthru,
+        ln: d.line_number,
+        son: d.son,
+        ml: false,
+        bin: searcher_common::Bin::None,
+    };
+    let lines = searcher_common::split_lines(inp, lt.byte());
+    if lines.is_empty() || lines.len() > 10 {
+        return None;
+    }
+    let csx = cfg.to_sx();
+    let mut all = true;
+    let mut windows = 0;
+    for i in 0..lines.len() {
+        for j in (i + 1)..=lines.len() {
+            let buf: Vec<u8> = lines[i..j].concat();
+            let (tsx, _) = searcher_common::table_sx(m, &cfg, &buf);
+            let r = drv.ask(&format!("c02.linesafe {} {} {}", csx, tsx, hex(&buf)));
+            windows += 1;
+            match r.as_str() {
+                "1" => {}
+                "0" => all = false,
+                other => {
+                    rep.violation(Violation {
+                        kind: "impl_vs_model".into(),
+                        class: "".into(),
+                        tie: "driver (c02.linesafe)".into(),
+                        case: case.to_string(),
+                        detail: format!("driver answered {} for window lines {}..{}", other, i, j),
+                    });
+                    return None;
+                }
+            }
+        }
+    }
+    rep.branch(if all { "ds:linesafe-certificate-holds-on-every-window" } else { "ds:linesafe-certificate-fails-on-a-window" });
+    if all && windows > 3 {
+        rep.branch("ds:C02_fast-hypothesis-certified(>3 windows)");
+    }
+    Some(all)
+}
+
+fn run_ds(case: &str, d: &Ds, scratch: &Path, drv: &mut Driver, rep: &mut Report) {
     rep.eval();
     let m = match d.matcher() {
         Some(m) => m,
@@ -391,6 +449,10 @@ fn run_ds(case: &str, d: &Ds, scratch: &Path, rep: &mut Report) {
     if !d.sniff {
         rep.branch(if BOMS.iter().any(|b| inp.starts_with(b)) { "ds:no-sniff-bom-input" } else { "ds:no-sniff" });
     }
+    // the hypothesis of theorem C02_fast, certified for this case: the real matcher is line safe
+    // (executable `lineSafeCheck`, sound by `lineSafeCheck_sound`) on every window of the input the
+    // roll buffer can hand out (from a line start to a line end / the end of the input)
+    let certified = certify_line_safe(case, d, &m, &inp, drv, rep);
     let max_ctx = if d.passthru { 0 } else { d.after.max(d.before) };
     let has_ctx_event = spec.iter().any(|e| e.starts_with('c'));
     let mut file: Option<PathBuf> = None;
@@ -457,6 +519,9 @@ fn run_ds(case: &str, d: &Ds, scratch: &Path, rep: &mut Report) {
         };
         if got != spec {
             let class = classify(d, &spec, &got, &script);
+            if certified == Some(true) && d.stop.is_none() && class.is_empty() {
+                rep.branch("ds:differs-although-C02_fast-applies");
+            }
             let mut name = name;
             if name.len() > 300 {
                 name.truncate(300);
@@ -995,7 +1060,7 @@ fn run_case(case: &str, args: &Args, drv: &mut Driver, rep: &mut Report) {
             None => rep.notes.push(format!("unparsable case: {}", case)),
         },
         Some("ds") => match Ds::parse(&parts) {
-            Some(d) => run_ds(case, &d, &args.scratch, rep),
+            Some(d) => run_ds(case, &d, &args.scratch, drv, rep),
             None => rep.notes.push(format!("unparsable case: {}", case)),
         },
         Some("hs") => match Hs::parse(&parts) {
